@@ -349,7 +349,8 @@ class Model(probe.Contract):
                 K = np.ones((1, 1))
                 for _ in range(L):
                     K = np.kron(K, M)
-                ok = ok and bool(np.allclose(res[:, :, ch], K, atol=1e-12))
+                K = np.asarray(K, dtype=float)  # (primaries of any real dtype: the statement is about their values)
+                ok = ok and bool(np.allclose(res[:, :, ch], K, rtol=1e-13, atol=1e-13 * max(float(np.max(np.abs(K))), 1e-300)))
         c.check(self.api, 'channels_are_kronecker_powers', ok, ['n=%d' % n, 'level=%d' % L], prop=P)
         c.sig(self.api, n, L)
 
